@@ -177,6 +177,10 @@ func (p *Prog) forAllShape(fn *ssa.Function) (over string, ok bool) {
 				}
 			}
 			if !after {
+				if p.emptyGuarded(b) {
+					trues-- // the zero-iteration answer given early
+					continue
+				}
 				return "", false
 			}
 			continue
@@ -547,8 +551,8 @@ func checkD1(c *Ctx, pr *prioRoles) {
 		if rel, _ := p.Rel(fn); rel != "priority" {
 			continue
 		}
-		if strings.Contains(p.FnKey(fn), "Config") || strings.Contains(p.FnKey(fn), "PickUp") {
-			continue // handler-quantity helpers: C18
+		if strings.Contains(p.FnKey(fn), "Config") || strings.Contains(p.FnKey(fn), "PickUp") || p.calledOnlyByQuantityHelpers(fn) {
+			continue // handler-quantity helpers (and private functions only they use): C18
 		}
 		for _, b := range fn.Blocks {
 			for _, in := range b.Instrs {
@@ -1541,4 +1545,42 @@ func instrReachableFrom(a, b ssa.Instruction) bool {
 		stack = append(stack, x.Succs...)
 	}
 	return false
+}
+
+// calledOnlyByQuantityHelpers: every chain of callers of fn (closures count as their parents) ends
+// in an exported handler-quantity helper (IsNonFatalConfig, IsSuitableConfig, PickUp*), and no
+// function on the way has a receiver: fn is a private part of those helpers, not of a discipline.
+func (p *Prog) calledOnlyByQuantityHelpers(fn *ssa.Function) bool {
+	seen := map[*ssa.Function]bool{}
+	var up func(f *ssa.Function, depth int) bool
+	up = func(f *ssa.Function, depth int) bool {
+		if f == nil || depth > 8 {
+			return false
+		}
+		if seen[f] {
+			return true
+		}
+		seen[f] = true
+		if f.Signature.Recv() != nil {
+			return false
+		}
+		if par := f.Parent(); par != nil {
+			return up(par, depth+1)
+		}
+		name := f.Name()
+		if f.Object() != nil && f.Object().Exported() {
+			return strings.Contains(name, "Config") || strings.Contains(name, "PickUp")
+		}
+		sites := p.CallSites(f)
+		if len(sites) == 0 {
+			return false
+		}
+		for _, cs := range sites {
+			if !up(cs.Parent(), depth+1) {
+				return false
+			}
+		}
+		return true
+	}
+	return up(fn, 0)
 }
